@@ -313,6 +313,8 @@ def opVecGen {α : Type} [CElem α] (cd : Codec α) (T : String) (op : String) (
   | "Dot" | "Swap" | "Compare" => fmt (Gen.dispatch v [x, y] [n] [])
   | "MatCompare" => if M = 0 then some "bad-op" else fmt (Gen.dispatch ("esl_mat_" ++ T ++ "Compare") [x, y] [M, Int.tdiv n M] [])
   | "Copy" | "Reverse" => fmt (Gen.dispatch v [x, dest] [n] [])
+  | "CDF" => fmt (Gen.dispatch v [x, dest] [n] [])
+  | "CDFInPlace" => fmt (Gen.dispatch ("esl_vec_" ++ T ++ "CDF_inplace") [x] [n] [])
   | "ReverseInPlace" => fmt (Gen.dispatch ("esl_vec_" ++ T ++ "Reverse_inplace") [x] [n] [])
   | "MatMax" => if M = 0 then some "bad-op" else fmt (Gen.dispatch ("esl_mat_" ++ T ++ "Max") [x] [M, Int.tdiv n M] [])
   | "MatScale" => if M = 0 then some "bad-op" else fmt (Gen.dispatch ("esl_mat_" ++ T ++ "Scale") [x] [M, Int.tdiv n M] [c])
@@ -337,6 +339,31 @@ def opCompareF {α : Type} [VCmp α] (cd : Codec α) (isF mat : Bool) (ws : List
     | true, true => Gen.esl_mat_FCompare x y M (Int.tdiv n M) tol
   match r with | some i => s!"ok {i}" | none => "fault"
 
+/-- the probability / log-space routines over `double` as REGENERATED from esl_vectorops.c (they need the class `VInf`: not in the generic
+    `dispatch`); `none` = not one of them -/
+def opVecDGen (op : String) (ws : List String) : Option String :=
+  let x : Array Float := ((chunks 8 ((argHex? ws "x").getD [])).map codecD.dec).toArray
+  let len : Int := x.size
+  let n : Int := match argInt? ws "n" with | some k => if k < len && k ≥ 0 then k else len | none => len
+  let vc (o : Option (Array Float)) : Option String :=
+    some (match o with | some r => "ok " ++ hexOrDash ((r.extract 0 n.toNat).toList.flatMap codecD.enc) | none => "fault")
+  let sc (o : Option Float) : Option String := some (match o with | some r => "ok " ++ dbits r | none => "fault")
+  match op with
+  | "Norm" => vc (Gen.esl_vec_DNorm x n)
+  | "Log" => vc (Gen.esl_vec_DLog x n)
+  | "Log2" => vc (Gen.esl_vec_DLog2 x n)
+  | "Exp" => vc (Gen.esl_vec_DExp x n)
+  | "Exp2" => vc (Gen.esl_vec_DExp2 x n)
+  | "LogSum" => sc (Gen.esl_vec_DLogSum x n)
+  | "Log2Sum" => sc (Gen.esl_vec_DLog2Sum x n)
+  | "LogNorm" => vc (Gen.esl_vec_DLogNorm x n)
+  | "Log2Norm" => vc (Gen.esl_vec_DLog2Norm x n)
+  | "Entropy" => sc (Gen.esl_vec_DEntropy x n)
+  | _ => none
+
+/-- both models of a routine must agree (the regenerated one and the hand model that carries the real-number theorems) -/
+def agree (g h : String) : String := if g == h then g else "model-mismatch gen=[" ++ g ++ "] hand=[" ++ h ++ "]"
+
 def opVec (ws : List String) : String :=
   match arg? ws "op" with
   | none => "bad-op"
@@ -350,9 +377,17 @@ def opVec (ws : List String) : String :=
     let hasY := (arg? ws "y").isSome
     if T == 'D' && (op == "Compare" || op == "MatCompare") then opCompareF codecD false (op == "MatCompare") ws else
     if T == 'F' && (op == "Compare" || op == "MatCompare") then opCompareF codecF true (op == "MatCompare") ws else
+    let nPre (k : Nat) : Nat := match argInt? ws "n" with | some j => if j < (k : Int) && j ≥ 0 then j.toNat else k | none => k
     let gen : Option String := match T with
-      | 'D' => opVecGen codecD "D" op ws
-      | 'F' => opVecGen codecF "F" op ws
+      | 'D' => match opVecDGen op ws with
+               | some g => some (agree g (opVecD op ((doubles xb).take (nPre (xb.length / 8))) [] (Float.ofBits (UInt64.ofNat sbits)) m))
+               | none =>
+                 if op == "CDF" || op == "CDFInPlace" then
+                   (opVecGen codecD "D" op ws).map fun g => agree g (opVecD op ((doubles xb).take (nPre (xb.length / 8))) [] 0 m)
+                 else opVecGen codecD "D" op ws
+      | 'F' => if op == "CDF" || op == "CDFInPlace" then
+                 (opVecGen codecF "F" op ws).map fun g => agree g (opVecF op ((floats xb).take (nPre (xb.length / 4))) [] 0 m)
+               else opVecGen codecF "F" op ws
       | 'I' => opVecGen codecI "I" op ws
       | 'L' => if op.startsWith "Mat" then some "bad-op" else opVecGen codecL "L" op ws
       | 'W' => if op == "Copy" || op == "MatCopy" then opVecGen codecW "W" op ws else some "bad-op"
